@@ -292,7 +292,8 @@ def coop_continue(w, rec, idle_ticks, hold_s, slack=1):
         elif closing:
             rec.step({'k': 'connLost', 'c': closing[0]}, closing[0])
         elif connecting:
-            rec.step({'k': 'connOk', 'c': connecting[0]}, connecting[0])
+            # (an attempt without the TCP-MD5 option cannot succeed with a peer that requires it: the attempt fails)
+            rec.step({'k': 'connOk' if w.signed(connecting[0]) else 'connRefused', 'c': connecting[0]}, connecting[0])
         elif tropen and st == 'OPENSENT':
             # (the cooperative peer may be a replacement router: another BGP identifier than in the history so far)
             rec.step({'k': 'msg', 'c': tr, 'm': 'OPEN', 'h': 90, 'id': 0x0a00004d}, tr)
